@@ -125,3 +125,27 @@ impl MainState {
         proof { reveal(fmt2_text); reveal_strlit(""); assert(""@ =~= Seq::<char>::empty()); }
 //@end
 }
+
+// ===== the forwarding arm of process_internal (C01: a copy put into a user's queue is written to that user's connection unchanged) =====
+// a raw line written to the connection (the relay lines are complete IRC lines already; feed_msg's items are the server's own replies)
+pub uninterp spec fn fed_raw(line: Seq<char>) -> FedItem;
+impl BufferedLineStream {
+    // ASSUMED: Sink::feed of the framed line stream (tokio-util): queues exactly this line for writing
+    #[verifier::external_body]
+    pub async fn feed(&mut self, line: String) -> (r: Result<(), LinesCodecError>)
+        ensures r is Ok, final(self).log() == old(self).log().push(fed_raw(line@)),
+    { unimplemented!() }
+}
+impl MainState {
+//@block state/mod.rs MainState::process_internal arm_forward unit=step props=C01,C05 rules=R2 from=~|conn_state\.stream\.feed\(msg\)\.await\?;| to=~|conn_state\.stream\.feed\(msg\)\.await\?;|
+//@head
+    pub async fn arm_forward(&self, conn_state: &mut ConnState, msg: String) -> (r: Result<(), HErr>)
+//@epilogue
+                Ok(())
+//@spec
+        ensures
+            r is Ok, conn_same_but_stream(*final(conn_state), *old(conn_state)), // @prop C01
+            // the queued copy goes out as it is: nothing added, nothing dropped, one line
+            final(conn_state).stream.log() == old(conn_state).stream.log().push(fed_raw(msg@)), // @prop C01
+//@end
+}
